@@ -39,7 +39,7 @@ PLAN.update({
             "bounded_fns": ["get_solidity_version_from_source_unit (regex-based version extractor: run on the whole version domain by the native check)"]},
     "C04": {"units": [(E, ALL_EXPR), ("slots", None), ("det_decl", None), ("det_gate", None), ("det_vuln", None), ("det_state", None), ("det_incdec", None), ("pow2", None), ("lines", None),
                       ("dispatch", ["start", "end", "analyze_for_optimization", "analyze_for_vulnerability", "analyze_for_qa"])], "walker": True, "native": "c04", "native_profiles": ["release", "nochecks"],
-            "bounded_fns": ["every detector not listed under functions_under_contract (all 30 detectors are run on the totality corpus)"]},
+            "bounded_fns": ["the two pieces of code reachable from analyze_for_* that are NOT under a Verus contract: the statements before the halving loop of number_literal_is_power_of_two, and get_solidity_version_from_source_unit with its regex helper get_solidity_major_minor_patch_version (all 30 detectors, proved or not, are run on the totality corpus in two build profiles)"]},
     "C19": {"units": [(E, ALL_EXPR), ("det_decl", None), ("det_vuln", None), ("det_incdec", None)], "native": "c19",
             "bounded_fns": ["detectors outside units det_expr / det_decl (whole file vs. all-but-one-item-blanked, bounded)"]},
 })
